@@ -23,8 +23,11 @@ MOL = M.CLS["Molecule"]
 KINDS = ["Molecule", "Structure"]
 
 
+BIG = [(5, ((0, 1), (1, 2), (2, 3), (3, 4), (4, 0))), (4, ((0, 1), (0, 1), (2, 3)))]       # thorough tier only
+
+
 def sizes(V):
-    return V.choose([(3, ((0, 1), (1, 2))), (1, ()), (0, ())], "size")
+    return V.choose([(3, ((0, 1), (1, 2))), (1, ()), (0, ())] + (BIG if V.tier == "thorough" else []), "size")
 
 
 def indices_ok(V, m, label):
@@ -136,7 +139,7 @@ def _new_atom(V):
 def del_unit(kind):
     def body(V):
         I, st = V.I, V.st
-        k, bonds = V.choose([(3, ((0, 1), (1, 2))), (3, ((0, 1), (0, 1))), (1, ())], "size")
+        k, bonds = V.choose([(3, ((0, 1), (1, 2))), (3, ((0, 1), (0, 1))), (1, ())] + (BIG if V.tier == "thorough" else []), "size")
         m = M.mk_mol(V, kind, k, bonds)
         g = M.Ghost(m)
         before = M.snapshot(m)
